@@ -20,23 +20,26 @@ vars == <<order, cst, trk, hist>>
 \* "kinds" : incremental analysis over every constituent kind (functions, calls, axioms, structures, ill-typed, unparsable, dangling)
 \* "names" : renaming (C08): aliases that are prefixes of each other, chains and mentions in definitions, conventions, references
 OpSet == CASE Preset = "ids" -> {"Emplace", "InsertCopy", "Erase", "SetAlias", "MoveBefore", "ResetAliases", "Track", "StopTracking", "SetExpression", "SaveLoad"}
+           [] Preset = "dups" -> {"Emplace", "Track", "DeleteDuplicates", "Erase", "SetAlias", "SetConvention"}
            [] Preset = "deps" -> {"Emplace", "SetExpression", "Erase"}
            [] Preset = "kinds" -> {"Emplace", "SetExpression", "Erase", "SetAlias"}
            [] Preset = "names" -> {"Emplace", "SetAlias", "ResetAliases", "SetConvention", "SetTerm", "SetText", "InsertCopy", "Erase"}
 UidPool == 1..(MaxCst + 1)
 EmplaceKinds == CASE Preset = "ids" -> {"base", "constant", "structured", "term", "axiom"}
                   [] Preset = "deps" -> {"base", "term"}
+                  [] Preset = "dups" -> {"base", "term"}
                   [] Preset = "kinds" -> {"base", "structured", "term", "function", "axiom"}
                   [] Preset = "names" -> {"base", "term"}
 \* definitions offered when a constituent of kind k is created
 KindDefs(k) == CASE Preset = "ids" -> {1, 2}
+                 [] Preset = "dups" -> IF k = "base" THEN {1} ELSE {2, 5}
                  [] Preset = "deps" -> IF k = "base" THEN {1} ELSE {2, 5, 6, 7, 8, 17}
                  [] Preset = "kinds" -> (CASE k = "base" -> {1} [] k = "structured" -> {4, 18} [] k = "term" -> {2, 5, 9, 10, 11, 13, 16}
                                           [] k = "function" -> {12} [] k = "axiom" -> {14, 15})
                  [] Preset = "names" -> IF k = "base" THEN {1} ELSE {5, 16, 19}
 \* definitions offered to SetExpression
-EditDefs == CASE Preset = "ids" -> {1, 2} [] Preset = "deps" -> {2, 5, 6, 7, 8, 17} [] Preset = "kinds" -> {1, 2, 5, 10, 12, 13, 14, 16} [] Preset = "names" -> {}
-AliasPool == CASE Preset = "ids" -> {"X1", "X2", "D1", "Q7"} [] Preset = "kinds" -> {"D1", "D2", "X2"} [] Preset = "names" -> {"X1", "X11", "X2", "D1", "D11", "D2"} [] OTHER -> {}
+EditDefs == CASE Preset = "ids" -> {1, 2} [] Preset = "dups" -> {} [] Preset = "deps" -> {2, 5, 6, 7, 8, 17} [] Preset = "kinds" -> {1, 2, 5, 10, 12, 13, 14, 16} [] Preset = "names" -> {}
+AliasPool == CASE Preset = "ids" -> {"X1", "X2", "D1", "Q7"} [] Preset = "dups" -> {"D3"} [] Preset = "kinds" -> {"D1", "D2", "X2"} [] Preset = "names" -> {"X1", "X11", "X2", "D1", "D11", "D2"} [] OTHER -> {}
 RecUids == {1, 2}
 RecAliases == IF Preset = "names" THEN {"X1", "D1", "X11"} ELSE {"X1", "D1", "Q7"}
 RecDefs == {1, 8}
@@ -65,8 +68,9 @@ DefPool == <<
   Node("UNION", <<Node("UNION", <<G1("X1"), G1("X11")>>), Node("DECLARATIVE", <<Loc("x1"), G1("D1"), Node("IN", <<Loc("x1"), G1("D11")>>)>>)>>)   \* 19 X1, X11, D1, D11 and a local x1
 >>
 Words == <<"note", "X1", "D1">>                       \* conventions: plain word, and words that are aliases
+\* a plain "word" may itself be reference syntax the model does not interpret: a collaboration reference stays as it is
 AtomsPool == {<<>>, <<[r |-> TRUE, s |-> "X1"], [r |-> FALSE, s |-> "X1"], [r |-> TRUE, s |-> "X11"], [r |-> TRUE, s |-> "D1"]>>,
-              <<[r |-> TRUE, s |-> "D2"]>>}
+              <<[r |-> TRUE, s |-> "D2"]>>, <<[r |-> TRUE, s |-> "X1"], [r |-> FALSE, s |-> "@{-1|lonely}"], [r |-> TRUE, s |-> "D1"]>>}
 ConvPool == {<<>>, <<"X1", "note", "D1", "X11", "x1">>}
 RecPool == {[uid |-> u, alias |-> a, kind |-> k, def |-> DefPool[d], conv |-> <<"X1">>, term |-> <<[r |-> TRUE, s |-> a]>>, text |-> <<>>] :
                u \in RecUids, a \in RecAliases, k \in {"base", "term"}, d \in RecDefs}
@@ -99,6 +103,7 @@ Next ==
      \/ /\ "ResetAliases" \in OpSet /\ Ids # {} /\ Step(ResetAliases, Op("ResetAliases"))
      \/ /\ "Track" \in OpSet /\ \E u \in Ids, b \in BOOLEAN : Step(Track(u, b), [Op("Track") EXCEPT !.u = u, !.b = b])
      \/ /\ "StopTracking" \in OpSet /\ \E u \in DOMAIN trk : Step(StopTracking(u), [Op("StopTracking") EXCEPT !.u = u])
+     \/ /\ "DeleteDuplicates" \in OpSet /\ Ids # {} /\ Step(DeleteDuplicates, Op("DeleteDuplicates"))
      \/ /\ "SaveLoad" \in OpSet /\ Ids # {} /\ Step(SaveLoad, Op("SaveLoad"))
 
 Init == SInit /\ hist = <<>>
